@@ -60,6 +60,7 @@ def streams(tier, rng, fs, profile):
     out = [
         ("g-hard", gens.float_parse_hard_ops(rng, fs, hard_rads, 40 if quick else 400, rich=True, tails=2 if quick else 20)),
         ("g-ties", gens.exact_tie_radix_ops(rng, fs, rads, per_radix=4 if quick else 40)),
+        ("g-ties-int", gens.exact_tie_int_ops(rng, fs, rads, per_radix=3 if quick else 30)),
         ("g-exp", gens.float_exp_ops(rng, fs, rads if not quick else hard_rads)),
         ("g-random", gens.float_random_ops(rng, fs, rads, 60 if quick else 1500)),
         ("g-mixed", mixed_ops(rng, 60 if quick else 1500)),
